@@ -238,6 +238,13 @@ func (f *RunningEventFilter) onReorg(writer db.KeyValueWriter) error {
 		return err
 	}
 
+	// A snapshot persisted at an earlier shutdown describes the blocks being
+	// reverted; drop it so that a restart after an ungraceful exit rebuilds the
+	// window from the canonical headers instead of resuming stale bits.
+	if err := writer.Delete(db.RunningEventFilter.Key()); err != nil {
+		return fmt.Errorf("deleting stale running event filter snapshot: %w", err)
+	}
+
 	currRangeStart := f.inner.FromBlock()
 	curBlock := f.next - 1
 	// Falls into previous filter's range
